@@ -107,13 +107,20 @@ def detect_adt_renames(crates, table):
     """Private types renamed with their definition unchanged: {new name: reference name}."""
     ref = table.get('adts') or {}
     have = {a['name']: (c['crate'], a) for c in crates for a in c['adts']}
-    missing = [n for n in ref if n not in have and not ref[n].get('exported')]
-    new = [(n, ca) for n, ca in have.items() if n not in ref and not ca[1].get('exported')]
+    def simple(n):
+        return n.rsplit('::', 1)[-1]
+    missing = [n for n in ref if n not in have]
+    new = [(n, ca) for n, ca in have.items() if n not in ref]
+    # an exported type may only have *moved* (same simple name: its public path is a re-export); a private one may
+    # also have been renamed
+    new = [(n, ca) for n, ca in new if not ca[1].get('exported') or any(simple(m) == simple(n) for m in missing)]
+    missing = [m for m in missing if not ref[m].get('exported') or any(simple(m) == simple(n) for n, ca in new)]
     out = {}
     for n, (crate, a) in new:
         shape = json.loads(json.dumps(_adt_shape(a)))
         # the type's own name is the variant name of a struct / union
-        cands = [m for m in missing if ref[m]['crate'] == crate and _same_shape(ref[m]['shape'], shape, m, n)]
+        cands = [m for m in missing if ref[m]['crate'] == crate and _same_shape(ref[m]['shape'], shape, m, n)
+                 and (simple(m) == simple(n) or not (ref[m].get('exported') or a.get('exported')))]
         if len(cands) == 1 and sum(1 for n2, (c2, a2) in new if c2 == crate and _same_shape(ref[cands[0]]['shape'], json.loads(json.dumps(_adt_shape(a2))), cands[0], n2)) == 1:
             out[n] = cands[0]
     return out
@@ -161,6 +168,20 @@ def rename_private_fields(crates, table):
         for f in c['fns']:
             walk(f.get('blocks'))
     return sorted((a, new, old) for (a, i), (new, old) in fix.items())
+
+
+CALLEE_ALIASES = {
+    # free-function spellings of trait methods: one name for the rules
+    'core::cmp::min': 'core::cmp::Ord::min', 'std::cmp::min': 'core::cmp::Ord::min',
+    'core::cmp::max': 'core::cmp::Ord::max', 'std::cmp::max': 'core::cmp::Ord::max',
+}
+
+
+def apply_callee_aliases(text):
+    for a, b in CALLEE_ALIASES.items():
+        text = text.replace('"calleep":"%s"' % a, '"calleep":"%s"' % b).replace('"resp":"%s"' % a, '"resp":"%s"' % b)
+        text = text.replace('"calleep": "%s"' % a, '"calleep": "%s"' % b).replace('"resp": "%s"' % a, '"resp": "%s"' % b)
+    return text
 
 
 def apply_renames(text, renames):
@@ -234,6 +255,100 @@ def inline_site(caller, bb, callee):
     caller.setdefault('inlined', []).append(callee['name'])
 
 
+def inline_local_closure_calls(crates, table=None):
+    """A closure defined in a function and called directly by it (`let f = |x| ..; f(a)`) is straight-line code
+    with a name: splice its body into each direct call site (rust-call ABI: the argument tuple is spread over the
+    closure's parameters, the first parameter is the closure value or a reference to it).  The closure itself stays
+    in the program (the aggregate that builds it still names it).  Only closures the reference table does not know
+    are spliced (like new helper functions).  Returns [(closure name, caller name)]."""
+    done = []
+    ref_names = set(table['fns']) if table else set()
+    for c in crates:
+        by_key = {f['key']: f for f in c['fns']}
+        for f in c['fns']:
+            for _ in range(16):
+                site = None
+                for bi, blk in enumerate(f['blocks']):
+                    t = blk['term']
+                    if t['k'] != 'call' or t.get('calleep') not in ('core::ops::function::Fn::call', 'core::ops::function::FnMut::call_mut',
+                                                                     'core::ops::function::FnOnce::call_once'):
+                        continue
+                    cl = by_key.get(t.get('res') or '')
+                    if cl is None or cl.get('kind') != 'Closure' or cl is f or len(t['args']) != 2 or not cl.get('blocks'):
+                        continue
+                    if cl['name'] in ref_names:
+                        continue   # a closure of the reference tree: the rules know it as it is
+                    if _has_loop(cl) and _loop_free_in_reference(table, f):
+                        continue   # (same reason as for helper functions)
+                    # defined in this function (or in a closure of it): parent chain reaches f
+                    if cl.get('parent_fn') not in (f['key'], f.get('parent_fn') or '-'):
+                        continue
+                    if any(b2['term']['k'] == 'call' and b2['term'].get('res') == cl['key'] for b2 in cl['blocks']):
+                        continue
+                    site = (bi, cl)
+                    break
+                if site is None:
+                    break
+                bi, cl = site
+                t = f['blocks'][bi]['term']
+                tup = t['args'][1]
+                spread = [t['args'][0]]
+                for i in range(cl['argc'] - 1):
+                    if tup['k'] not in ('copy', 'move'):
+                        spread = None
+                        break
+                    spread.append({'k': 'copy', 'pl': {'l': tup['pl']['l'], 'p': list(tup['pl']['p']) + [
+                        {'k': 'field', 'i': i, 'n': str(i), 'adt': '', 'ty': '', 'union': False}]}})
+                if spread is None:
+                    t['calleep'] = t['calleep'] + ' '   # leave it, and do not look at it again
+                    continue
+                t['args'] = spread
+                inline_site(f, bi, cl)
+                done.append((cl['name'], f['name']))
+    return done
+
+
+def _loop_free_in_reference(table, f):
+    """f (a fact dict) is a function the reference table knows as loop-free -- the path evaluator applies to it and a
+    rule may depend on that; a function the table does not know counts as loop-free if it is so now."""
+    r = (table or {}).get('fns', {}).get(f['name'])
+    if r is not None and 'loops' in r:
+        return not r['loops']
+    return not _has_loop(f)
+
+
+def _has_loop(d):
+    """Does the fact-level CFG of function dict d contain a cycle (ignoring unwind edges, which are not recorded)?"""
+    succ = []
+    for blk in d['blocks']:
+        t = blk['term']
+        k = t['k']
+        if k in ('goto', 'drop', 'assert'):
+            succ.append([t['t']])
+        elif k == 'call':
+            succ.append([t['t']] if t['t'] >= 0 else [])
+        elif k == 'switch':
+            succ.append(sorted({b for v, b in t['ts']} | {t['o']}))
+        else:
+            succ.append([])
+    color = {}
+    stack = [(0, iter(succ[0]))] if succ else []
+    color[0] = 1
+    while stack:
+        b, it = stack[-1]
+        for s_ in it:
+            if color.get(s_) == 1:
+                return True
+            if s_ not in color:
+                color[s_] = 1
+                stack.append((s_, iter(succ[s_])))
+                break
+        else:
+            color[b] = 2
+            stack.pop()
+    return False
+
+
 def _fn_value_uses(d, key):
     """Does the body use `key` as a function value (not in call position)?"""
     found = []
@@ -301,6 +416,11 @@ def inline_new_helpers(crates, table):
                             and by_key[t['res']][1]['kind'] in ('Fn', 'AssocFn')
                             for t in (b['term'] for b in h['blocks']))
             if bad or not sites or inner_new:
+                continue
+            if h['name'] not in ALWAYS_INLINE and _has_loop(h) and any(_loop_free_in_reference(table, f) for f, bi in sites):
+                # splicing a loop into a loop-free caller would take the caller out of reach of the path evaluator;
+                # the helper stays a function and the rules that care look into it
+                h['_keep'] = True
                 continue
             callers = []
             for f, bi in sites:
